@@ -271,9 +271,17 @@ impl<'p, W, R, T> CompilationScope<'p, W, R, T> {
             .iter_mut()
             .find(|f| !f.fulfilled && f.name == name && f.spec == spec)
         {
-            // todo check what happens if the fulfillment has a reference as well
             fref.fulfilled = true;
-            fref.cell_idx
+            let cell_idx = fref.cell_idx;
+            // the implementation may itself depend on other forward declarations: whoever uses this function inherits them
+            if let Some(Cell::Variable {
+                forward_requirements: existing,
+                ..
+            }) = self.cells.iter_mut().nth(cell_idx)
+            {
+                existing.extend(forward_requirements);
+            }
+            cell_idx
         } else {
             let cell_idx = self.cells.ipush(Cell::Variable {
                 t: spec.xtype(),
@@ -526,7 +534,14 @@ impl<'p, W, R, T> CompilationScope<'p, W, R, T> {
         &mut self,
         refs: impl IntoIterator<Item = ForwardRefRequirement>,
     ) -> Result<(), CompilationError> {
-        for freq in refs {
+        let mut pending: Vec<ForwardRefRequirement> = refs.into_iter().collect();
+        // the requirements of a scope live in a hash set: report in a fixed order
+        pending.sort_by_key(|freq| std::cmp::Reverse((freq.ancestor_height.0, freq.ref_idx)));
+        let mut seen = HashSet::new();
+        while let Some(freq) = pending.pop() {
+            if !seen.insert(freq.clone()) {
+                continue;
+            }
             let fref = &self.forward_ref(&freq);
             if !fref.fulfilled {
                 if freq.ancestor_height == self.height {
@@ -536,6 +551,17 @@ impl<'p, W, R, T> CompilationScope<'p, W, R, T> {
                     });
                 } else {
                     self.forward_requirements.insert(freq);
+                }
+            } else {
+                // an implemented forward function passes on what its implementation depends on
+                let cell_idx = fref.cell_idx;
+                let depth = self.height - freq.ancestor_height;
+                if let Cell::Variable {
+                    forward_requirements,
+                    ..
+                } = &self.ancestor_at_depth(depth).cells[cell_idx]
+                {
+                    pending.extend(forward_requirements.iter().cloned());
                 }
             }
         }
